@@ -175,6 +175,18 @@ class E1Check:
         cfg["name"] = rec["config"]
         hist = tuple(rec["history"])
         counters = collections.Counter()
+        self.ops(cfg)  # builds the per-configuration operation / probe tables the oracles consult
+        init = tuple(tuple(o) if isinstance(o, list) else o for o in cfg.get("init", ()))
+
+        def contents_of(h):
+            """Stored contents as the exploration saw them: the reference for the initial history, else the database's own."""
+            if tuple(h) == init:
+                return self.initial_contents(cfg)
+            w0 = W.World.build(cfg, self.alpha, h)
+            st = w0.stored()
+            w0.close()
+            return st
+
         if "unexpected-exception-while-" in rec.get("signature", ""):
             explorer._CTX.update(check=self, cfgs=[cfg], alpha=self.alpha)
             try:
@@ -194,17 +206,13 @@ class E1Check:
                     out += viols
             return out
         if rec.get("kind") == "state":
-            w0 = W.World.build(cfg, self.alpha, hist)
-            stored = w0.stored()
-            w0.close()
+            stored = contents_of(hist)
             w = W.World.build(cfg, self.alpha, hist)
             out = self.observe(w, stored, hist, cfg, counters)
             w.close()
             return out
         pre_hist, op = hist[:-1], hist[-1]
-        w0 = W.World.build(cfg, self.alpha, pre_hist)
-        pre = w0.stored()
-        w0.close()
+        pre = contents_of(pre_hist)
         w = W.World.build(cfg, self.alpha, pre_hist)
         T = explorer.Transition()
         T.cfg, T.alpha, T.history, T.op, T.pre, T.world, T._ref = cfg, self.alpha, pre_hist, op, pre, w, None
